@@ -101,8 +101,8 @@ def facts(c):
 class C08Check(Check):
     """same pipeline; a stronger shrinker so that a known pattern is only recognised in its 1-minimal canonical form"""
 
-    def shrink(self, case_ops, hbin, exe, exe_args, budget=300):
-        cur = Check.shrink(self, case_ops, hbin, exe, exe_args, budget=budget)
+    def shrink(self, case_ops, hbin, exe, exe_args, budget=300, only_prop=False, want_prop=False):
+        cur = Check.shrink(self, case_ops, hbin, exe, exe_args, budget=budget, only_prop=only_prop or want_prop)
         runs = 0
 
         def eliminate(cur):
